@@ -5,6 +5,28 @@
 //! "boring" decision so that shrinking a tape toward zeros simplifies the scenario.
 
 use crate::rng::Rng;
+use std::cell::Cell;
+
+/// Generation of the scenario generators. A generator that gains a new decision draws it only
+/// when `gen() >= <the generation that introduced it>`, so that replay files recorded by an older
+/// generation (they carry their "gen"; absent = 1) keep describing the same scenario.
+pub const CURRENT_GEN: u32 = 2;
+
+thread_local! {
+    static GEN: Cell<u32> = const { Cell::new(CURRENT_GEN) };
+}
+
+pub fn gen() -> u32 {
+    GEN.with(|g| g.get())
+}
+
+/// Run `f` under generator generation `g` (replay of an older file), restoring the current one.
+pub fn with_gen<T>(g: u32, f: impl FnOnce() -> T) -> T {
+    let old = GEN.with(|c| c.replace(g));
+    let r = f();
+    GEN.with(|c| c.set(old));
+    r
+}
 
 #[derive(Clone, Debug)]
 pub struct Tape {
